@@ -32,8 +32,9 @@ def main():
     with ThreadPoolExecutor(max_workers=3) as ex:
         for name, res in ex.map(one, paths):
             alarms = {k: v for k, v in res.items() if v["exit"] != 0}
-            results[name] = {"checks_run": sorted(res), "alarms": alarms}
-            print(name, "SILENT" if not alarms else "ALARMS %s" % alarms)
+            results[name] = {"checks_run": sorted(res), "alarms": alarms, "applies": bool(res)}
+            # a patch that no longer applies ran nothing: that is not silence
+            print(name, "DOES NOT APPLY (nothing run)" if not res else "SILENT" if not alarms else "ALARMS %s" % alarms)
             sys.stdout.flush()
             json.dump(results, open(out_path, "w"), indent=1)
 
